@@ -76,6 +76,22 @@ def run (dep : Loss → List Player) (evs : List TEv) (s : TS) : TS := evs.foldl
 /-- the bookkeeping of the step as the source has it -/
 def lifted : TS := run dependsOn events init
 
+/-! ### the autograd graph: `retain_graph`
+
+`<loss>.backward()` without `retain_graph=True` frees the saved tensors of every sub-graph it walked: the forward pass of
+each player the loss depends on.  A later backward pass through a freed sub-graph raises ("Trying to backward through the
+graph a second time").  `freed` = the players whose forward graph is gone. -/
+
+def graphOk (dep : Loss → List Player) (retain : Loss → Bool) : List TEv → List Player → Bool
+  | [], _ => true
+  | .backward l :: rest, freed =>
+    if (dep l).any (fun p => freed.contains p) then false
+    else graphOk dep retain rest (if retain l then freed else freed ++ dep l)
+  | _ :: rest, freed => graphOk dep retain rest freed
+
+/-- no backward pass of the lifted statement list walks a freed graph (flags as lifted: `retainsGraph`) -/
+def liftedGraphOk : Bool := graphOk dependsOn retainsGraph events []
+
 /-! ### driver glue -/
 
 def fmtBuf (b : Buf) : String := s!"{b.lp},{b.la},{b.stale}"
@@ -86,11 +102,11 @@ def fmtP : Option PGrad → String
   | some (.comb a b) => "combine(" ++ fmtBuf a ++ ";" ++ fmtBuf b ++ ")"
 
 /-- op `trainstep.applied` -> `<ok> <what the predictor's optimiser applies> <what the adversary's optimiser applies>`
-    (coefficients of dLP/dθ, dLA/dθ, stale) -/
+    (coefficients of dLP/dθ, dLA/dθ, stale); `ok` = buffers consistent AND no backward pass through a freed graph -/
 def handle (toks : List String) : Option String :=
   match toks with
   | ["trainstep.applied"] =>
-    some (Proto.fmtBool lifted.ok ++ " " ++ fmtP lifted.appliedP ++ " " ++
+    some (Proto.fmtBool (lifted.ok && liftedGraphOk) ++ " " ++ fmtP lifted.appliedP ++ " " ++
       (match lifted.appliedA with | none => "none" | some b => fmtBuf b))
   | _ => none
 
